@@ -442,20 +442,55 @@ def topo_lines(sc: dict, sim, N, prot: List[str], info: Optional[dict] = None) -
             if net is not None:
                 lines.append(f"t-label {idx[h]} {p - 1} {net[0]} {net[1]}")
     for h in names:
-        if roles.get(h) == "routerDeny":
+        if isinstance(N[h], Router) and not isinstance(N[h], Firewall):
             for p in sorted(N[h].network_interface):
                 ni = N[h].network_interface[p]
                 lines.append(f"t-rtrif {int(ni.mac_address.replace(':', ''), 16)} {ni.ip_address}")
+    # reachability certificate (certifyB): which nodes are inside the protected zone, the addresses the protected HOSTS answer to,
+    # every router / firewall interface, every configured next hop
+    for h in names:
+        n = N[h]
+        role = ("fw" if isinstance(n, Firewall) else "rtr" if isinstance(n, Router) else "switch" if isinstance(n, Switch)
+                else "deaf" if h in prot else "host")
+        lines.append(f"t-roleB {idx[h]} {role} {1 if h in prot else 0}")
+        if role == "deaf":
+            for p in sorted(n.network_interface):
+                ni = n.network_interface[p]
+                lines.append(f"t-ba {ni.ip_address}")
+                lines.append(f"t-ba {ni.ip_network.broadcast_address}")
+        if isinstance(n, Router):
+            for p in sorted(n.network_interface):
+                ni = n.network_interface[p]
+                lines.append(f"t-rtrifB {int(ni.mac_address.replace(':', ''), 16)} {ni.ip_address}")
+            for rt in list(n.route_table.routes) + ([n.route_table.default_route] if n.route_table.default_route else []):
+                lines.append(f"t-hop {rt.next_hop_ip_address}")
     lines.append("t-certify")
     lines.append("t-certifyC")
     lines.append("t-certifyN")
+    lines.append("t-certifyB")
     return lines
+
+
+def expect_certified_b(sc: dict) -> Optional[str]:
+    """What `certifyB` (reachability form: the protected HOSTS unchanged) must answer where the block is a rule list: accepted
+    exactly when every frame addressed to B is denied whatever its source, protocol and ports — any-any and destination rules of a
+    router, a firewall's first list, or the second list the code selects for B's address (from the DMZ the selection is opaque: both
+    candidate lists would have to deny).  `None`: no expectation (blocks by disabled interfaces, power, missing links)."""
+    m = sc["block"]
+    if m in ("router_deny_anyany", "router_deny_dst_exact", "fw_first_stage_deny", "fw_first_stage_empty"):
+        return "certifiedB"
+    if m in ("router_deny_src_exact", "router_deny_src_range", "router_deny_three_protocols"):
+        return "uncertifiedB"
+    if m == "fw_second_stage_deny":
+        return "uncertifiedB" if sc["a_zone"] == "dmz" else "certifiedB"
+    return None
 
 
 def expect_certified_n(sc: dict, prot: List[str]) -> str:
     """What `certifyN` must answer for the scenario's real post-block network: it is the hypothesis-free theorem
     (C06_certifiedN_unchanged) exactly when the attacker side consists of hosts and switches only, no element blocks by a disabled
-    boundary interface of its own (role ifaceDown: that theorem needs SoftKeeps), and the class is a SOURCE class or everything."""
+    boundary interface of its own (role ifaceDown: that theorem needs SoftKeeps), and the class is a SOURCE class or everything; interior
+    routers are accepted when the class covers their addresses."""
     roles = roles_for(sc)
     names = sorted({x for e in edges(sc) for x in e})
     if sc["block"] in ("router_deny_dst_exact", "router_deny_three_protocols"):
@@ -467,7 +502,11 @@ def expect_certified_n(sc: dict, prot: List[str]) -> str:
             continue
         if role == "ifaceDown":
             return "uncertifiedN"
-        if role == "interior" and h not in ("A", "B", "C", "SW1", "SW2"):  # an interior router / firewall (R1, R2, RI, FW)
+        if role == "interior" and h == "FW":  # an interior firewall is not modelled as a forwarder
+            return "uncertifiedN"
+        if role == "interior" and h in ("R1", "R2", "RI") and sc["block"] in ("router_deny_src_exact", "router_deny_src_range"):
+            # an interior ROUTER is accepted (round 4: closure proved for rtrStd) when the class covers its own addresses — a
+            # source class written for the hosts does not (its echo reply would be outside the class)
             return "uncertifiedN"
     return "certifiedN-fw2" if sc["block"] == "fw_second_stage_deny" else "certifiedN"
 
@@ -632,6 +671,7 @@ def _run_once(sc: dict, with_block: bool, post_ops: List[str], wrappers: bool, p
     """pre ops, (block), post ops; every op is followed by one simulation timestep."""
     from primaite.simulator.network.hardware.base import Link
     from primaite.simulator.network.hardware.nodes.network.router import AccessControlList, Router
+    from primaite.simulator.network.hardware.nodes.network.firewall import Firewall
     from primaite.simulator.network.hardware.nodes.network.switch import Switch
     from primaite.simulator.network.protocols.arp import ARPPacket
     from primaite.simulator.system.core.session_manager import SessionManager
@@ -711,9 +751,64 @@ def _run_once(sc: dict, with_block: bool, post_ops: List[str], wrappers: bool, p
 
     created: Dict[int, Any] = {}
 
+    # rtrStd (Model/FilterFwd.lean): what a router / firewall puts on a wire while it handles a frame.  The real proc() wrapper
+    # already exists for Router.process_frame; here the whole receive_frame is bracketed (a stack per device: re-entrance).
+    rt_in: Dict[str, list] = {}
+    real_rrx, real_frx = Router.receive_frame, Firewall.receive_frame
+
+    def _pktsnap(frame):
+        return (str(frame.ip.src_ip_address), str(frame.ip.dst_ip_address), str(frame.ip.protocol),
+                None if frame.tcp is None else (frame.tcp.src_port, frame.tcp.dst_port),
+                None if frame.udp is None else (frame.udp.src_port, frame.udp.dst_port), id(frame.payload))
+
+    def _bracket(real):
+        def rx(self, frame, from_network_interface):
+            st = rt_in.setdefault(self.config.hostname, [])
+            st.append((id(frame), _pktsnap(frame)))
+            try:
+                return real(self, frame=frame, from_network_interface=from_network_interface)
+            finally:
+                st.pop()
+        return rx
+
+    def check_router(node, sender_nic, frame):
+        h = node.config.hostname
+        st = rt_in.get(h)
+        if not st:
+            model_ok["rtr-unattributed"] = model_ok.get("rtr-unattributed", 0) + 1  # not caused by a frame (none observed so far)
+            return
+        hid, hsnap = st[-1]
+        hops = {str(r.next_hop_ip_address) for r in list(node.route_table.routes) +
+                ([node.route_table.default_route] if node.route_table.default_route else [])}
+        what = None
+        if id(frame) == hid:
+            # a forwarded copy: the packet and the payload are those that were received
+            if _pktsnap(frame) != hsnap:
+                what = "forwarded a frame whose packet differs from the one it received"
+            kind = "rtr-forwarded"
+        elif isinstance(frame.payload, ARPPacket) and frame.payload.request:
+            tgt = str(frame.payload.target_ip_address)
+            if not (frame.payload.sender_ip_address == sender_nic.ip_address and (tgt in (hsnap[0], hsnap[1]) or tgt in hops)):
+                what = f"ARP request for {tgt}: neither the handled frame's source/destination ({hsnap[0]}/{hsnap[1]}) nor a next hop"
+            kind = "rtr-arp-request"
+        elif isinstance(frame.payload, ARPPacket):
+            kind = "rtr-arp-reply"
+        else:
+            # own services answer to the source of the frame being handled, with the outbound interface's own address
+            if not (frame.ip.src_ip_address == sender_nic.ip_address and str(frame.ip.dst_ip_address) == hsnap[0]):
+                what = (f"created a frame {frame.ip.src_ip_address}->{frame.ip.dst_ip_address} while handling a frame from {hsnap[0]}: "
+                        f"not a reply to the source")
+            kind = "rtr-reply-to-source"
+        if what:
+            model_bad.append(f"{h}: router/firewall {what}")
+        else:
+            model_ok[kind] = model_ok.get(kind, 0) + 1
+
     def check_models(sender_nic, frame):
         node = sender_nic._connected_node
         h = node.config.hostname
+        if isinstance(node, Router):
+            check_router(node, sender_nic, frame)
         if isinstance(node, Switch):
             # switchStd: a switch sends THE frame it received, unchanged
             st = sw_in.get(h)
@@ -799,6 +894,8 @@ def _run_once(sc: dict, with_block: bool, post_ops: List[str], wrappers: bool, p
             es.enter_context(mock.patch.object(SessionManager, "receive_frame", srx))
             es.enter_context(mock.patch.object(Router, "process_frame", proc))
             es.enter_context(mock.patch.object(Switch, "receive_frame", swrx))
+            es.enter_context(mock.patch.object(Router, "receive_frame", _bracket(real_rrx)))
+            es.enter_context(mock.patch.object(Firewall, "receive_frame", _bracket(real_frx)))
         tick()
         for op in sc["pre_ops"]:
             guarded(op)
@@ -856,7 +953,8 @@ def run_scenario(sc: dict, control: bool = True) -> dict:
         violations.append({"kind": "denied-frame-not-inert", "what": v})
     res = {"violations": violations, "log": attack["log"], "errors": attack["errors"], "nontrivial": None, "protected": prot,
            "topo": attack["topo"], "closure": attack["closure"], "topo_ctl": [],
-           "model_ok": {k: attack["model_ok"][k] + idle["model_ok"][k] for k in attack["model_ok"]},
+           "model_ok": {k: attack["model_ok"].get(k, 0) + idle["model_ok"].get(k, 0)
+                        for k in set(attack["model_ok"]) | set(idle["model_ok"])},
            "model_bad": attack["model_bad"] + idle["model_bad"]}
     if control:
         sc2 = dict(sc, missing_links=[], _want_topo=True)
@@ -952,7 +1050,7 @@ def run(ctx: Ctx):
     for _, _, res in results:
         all_lines += res["topo"] + res["topo_ctl"]
     answers = run_driver("drv_c06", all_lines)
-    pos, cert_bad, certc_bad, ctl_bad, closure_bad, certn_bad, model_bad_all = 0, [], [], [], [], [], []
+    pos, cert_bad, certc_bad, ctl_bad, closure_bad, certn_bad, model_bad_all, certb_bad = 0, [], [], [], [], [], [], []
     for name, sc, res in results:
         chunk = answers[pos:pos + len(res["topo"])]
         pos += len(res["topo"])
@@ -960,11 +1058,24 @@ def run(ctx: Ctx):
         pos += len(res["topo_ctl"])
         if "bad-op" in chunk or "bad-op" in chunk_ctl:
             raise RuntimeError(f"driver rejected a topology line of {name}")
+        res["certificateB"] = chunk[-1]
+        chunk = chunk[:-1]
+        if chunk_ctl:
+            ctl_b = chunk_ctl[-1]
+            chunk_ctl = chunk_ctl[:-1]
         res["certificate"] = chunk[-3]
         res["certificateC"] = chunk[-2]
         res["certificateN"] = chunk[-1]
         ok = chunk[-3] == "certified"
         okc = chunk[-2] == "certifiedC"
+        okb = res["certificateB"] == "certifiedB"
+        ctx.count(f"net:{res['certificateB'].split()[0]}:{sc['block']}")
+        want_b = expect_certified_b(sc)
+        if want_b is not None and res["certificateB"].split()[0] != want_b:
+            certb_bad.append(f"{name} {sc['family']}/{sc['block']}: {res['certificateB']}, expected {want_b}")
+        if chunk_ctl and sc["block"] in ("router_deny_anyany", "router_deny_dst_exact", "fw_first_stage_deny", "fw_first_stage_empty",
+                                          "fw_second_stage_deny") and ctl_b == "certifiedB":
+            certb_bad.append(f"{name} {sc['family']}/{sc['block']}: certifyB accepts the network WITHOUT the block")
         ctx.count(f"net:{'certified' if ok else 'uncertified'}:{sc['block']}")
         ctx.count(f"net:{'certifiedC' if okc else 'uncertifiedC'}:{sc['block']}")
         ctx.count(f"net:{chunk[-1].split()[0]}:{sc['block']}")
@@ -979,6 +1090,8 @@ def run(ctx: Ctx):
             ctx.count("net:theorem:C06_certified_unchanged:no-hypothesis(arbitrary interior handlers)")
         elif ok and "routerDeny" not in roles:
             ctx.count("net:theorem:C06_certified_unchanged_confined:software-set-of-the-ifaceDown-element-confined")
+        elif okb:
+            ctx.count("net:theorem:C06_certifiedB_unchanged:no-hypothesis(conclusion: protected HOSTS unchanged)")
         elif chunk[-1] == "certifiedN-fw2":
             ctx.count("net:theorem:C06_certifiedN_unchanged:FwSecondOK")
         elif res["closure"]["bad"]:
@@ -1026,6 +1139,9 @@ def run(ctx: Ctx):
                "correspondence", not certc_bad, "; ".join(certc_bad[:5]))
     ctx.oblige("rig:R-net the network-level certificate (certifyN: hosts and switches modelled, no closure hypothesis) answers as "
                "expected on the real post-block network of every scenario", "correspondence", not certn_bad, "; ".join(certn_bad[:5]))
+    ctx.oblige("rig:R-net the reachability certificate (certifyB: protected hosts unchanged whatever else circulates) answers as expected "
+               "on the real post-block network of every rule-list scenario and rejects the same network without the block",
+               "correspondence", not certb_bad, "; ".join(certb_bad[:5]))
     ctx.oblige("rig:R-net all three certificates reject the same network without the block", "correspondence", not ctl_bad,
                "; ".join(ctl_bad[:5]))
     ctx.oblige("rig:R-net where the closure is PROVED (certifyN accepts: hosts, switches, blocking router), every frame put on a wire "
